@@ -85,6 +85,11 @@ func c19VersionSet(r *rand.Rand, thorough bool) []string {
 	}
 	// leading zeros are numeric
 	set = append(set, "01.002", "0000.1", "1.0", "1.0.0", "1.0.0.0", "1", "0.0.0.1", "0.0.1", "0.1")
+	// ... to any width: the value of a component counts, not how many characters write it
+	set = append(set, "1.00002.3", "00010.00020.00030", "000000001", "0.0000009999", "00000.00000.00001", "09999.000009999")
+	for i := 0; i < 10; i++ {
+		set = append(set, fmt.Sprintf("%0*d.%0*d.%0*d", 1+r.Intn(9), r.Intn(10000), 1+r.Intn(9), r.Intn(10000), 1+r.Intn(9), r.Intn(10000)))
+	}
 	return set
 }
 
